@@ -274,7 +274,8 @@ def add_variants(draw, case):
             a_ = draw(st.sampled_from(sorted(kinds)))
             i_ = 0 if a_ in ('no_load_speed', 'maximum_torque', 'no_load_electric_current', 'maximum_electric_current') \
                 else draw(st.integers(0, n_el - 1))
-            rx.append([i_, a_, draw(s_unit(kinds[a_]))])
+            if not any(r[0] == i_ and r[1] == a_ for r in rx):      # one conversion per quantity: a round trip back into
+                rx.append([i_, a_, draw(s_unit(kinds[a_]))])        # the partner's unit may move the value by an ulp
         case['reexpress'] = rx
 
 
